@@ -94,6 +94,42 @@ var _ = pr.AutoF
 //@   call restoreBoxAttributes#1 assert old(ob.inner != pr.AutoF && ob.marginA != pr.AutoF && ob.marginB != pr.AutoF) ==> ob.inner == old(ob.inner) && ob.marginA == old(ob.marginA) && ob.marginB == old(ob.marginB)
 //@   call restoreBoxAttributes#1 assert ob.paddingPlusBorder == old(ob.paddingPlusBorder)
 
+// css-page-3 §5.3.2.4 "margin box fixed dimension": whatever was auto or over-constrained, when the resolved
+// values are written back none of margin / inner size is auto any more and margin-A + padding and border +
+// inner + margin-B is exactly the outer dimension (the page margin the box sits in).
+//@ func countAuto
+//@   props C12
+//@   nopanic
+//@   ensures result == ite(v1 == pr.AutoF, 1, 0) + ite(v2 == pr.AutoF, 1, 0) + ite(v3 == pr.AutoF, 1, 0)
+//@ func computeFixedDimension
+//@   props C12
+//@   modifies anything
+//@   call restoreBoxAttributes#1 assert[resolved] box.inner != pr.AutoF && box.marginA != pr.AutoF && box.marginB != pr.AutoF
+//@   call restoreBoxAttributes#1 assert[equation] pr.VV(box.marginA) + box.paddingPlusBorder + pr.VV(box.inner) + pr.VV(box.marginB) == outer
+
+// the oriented view of a page or margin box: outer size = margins + padding and border + inner size;
+// setting an outer size clamps the inner size between the min- and max-content sizes (css-page-3 §5.3.2.3)
+//@ func iface (layout.contentSizer).*
+//@   pure
+//@ func (orientedBox).sugar
+//@   props C12
+//@   nopanic
+//@   requires o.marginA != nil && o.marginB != nil
+//@   ensures result == o.paddingPlusBorder + pr.VV(o.marginA) + pr.VV(o.marginB)
+//@ func (orientedBox).outer
+//@   props C12
+//@   nopanic
+//@   requires o.marginA != nil && o.marginB != nil && o.inner != nil
+//@   ensures result == o.paddingPlusBorder + pr.VV(o.marginA) + pr.VV(o.marginB) + pr.VV(o.inner)
+//@ func (*orientedBox).setOuter
+//@   props C12
+//@   requires o != nil && o.marginA != nil && o.marginB != nil
+//@   modifies o.inner
+//@   let wanted = newOuterWidth - (o.paddingPlusBorder + pr.VV(o.marginA) + pr.VV(o.marginB))
+//@   ensures[not-auto] o.inner != pr.AutoF && o.inner != nil
+//@   ensures[clamped] pr.VV(o.inner) <= o.contentSizer.maxContentSize() && (pr.VV(o.inner) >= o.contentSizer.minContentSize() || pr.VV(o.inner) == o.contentSizer.maxContentSize())
+//@   ensures[exact-when-possible] o.contentSizer.minContentSize() <= wanted && wanted <= o.contentSizer.maxContentSize() ==> pr.VV(o.inner) == wanted
+
 //@ func iface (layout.orientedBoxITF).baseBox
 //@   pure
 //@   ensures result != nil
